@@ -56,7 +56,7 @@ func main() {
 	oracle := flag.String("oracle", "", "run one bounded reference search (queue|pool|list|buf|layout) on the real code of -repo and exit")
 	flag.Parse()
 	if *oracle != "" {
-		rep := map[string]string{"queue": "(*queue).put", "pool": "(*streamPool).pop", "list": "(*bufferList).pop", "buf": "(*linkedBuffer).ReadBytes", "layout": "mappingBufferManager"}[*oracle]
+		rep := oracleRep[*oracle]
 		if rep == "" {
 			fmt.Fprintln(os.Stderr, "unknown oracle", *oracle)
 			os.Exit(2)
@@ -209,6 +209,19 @@ func tmpBase() string {
 func seedFromEnv() int {
 	n, _ := strconv.Atoi(os.Getenv("VERIF_SEED"))
 	return n
+}
+
+// bounded reference searches run with each property (engine/oracle.go)
+var oraclesOf = map[string][]string{"C04": {"queue"}, "C15": {"pool"}, "C01": {"list"}, "C02": {"list"}, "C06": {"buf"}, "C08": {"buf"}, "C09": {"buf"}, "C03": {"layout", "list"}}
+var oracleRep = map[string]string{"queue": "(*queue).put", "pool": "(*streamPool).pop", "list": "(*bufferList).pop", "buf": "(*linkedBuffer).ReadBytes", "layout": "mappingBufferManager"}
+var boundedChecks []map[string]string
+
+func lastLine(s string) string {
+	s = strings.TrimSpace(s)
+	if i := strings.LastIndex(s, "\n"); i >= 0 {
+		return s[i+1:]
+	}
+	return s
 }
 
 // closureKeys: functions verified in the current property run only as dependencies (see the dependency closure)
@@ -477,6 +490,28 @@ func runProperty(e *Engine, prop, tier, propsFile, evidence, replays, knownFile 
 			exit = 2
 		}
 	}
+	// bounded reference searches on the real code (labelled bounded; additional to the proofs, never counted as proved)
+	boundedChecks = nil
+	for _, o := range oraclesOf[prop] {
+		rep := oracleRep[o]
+		bad, detail := oracleReplay(e, &Obligation{Func: rep, Model: map[string]string{}}, dir)
+		first := strings.SplitN(detail, "\n", 2)[0]
+		switch {
+		case bad:
+			violations++
+			exit = 1
+			path := filepath.Join(replays, prop, "oracle-"+o+".txt")
+			os.WriteFile(path, []byte(detail), 0o644)
+			fmt.Printf("VIOLATION property=%s replay=%s obligation=bounded-reference-search:%s (%.300s)\n", prop, path, o, first)
+			boundedChecks = append(boundedChecks, map[string]string{"name": o, "result": "violated", "detail": first})
+		case strings.Contains(detail, "REPLAY-NO-VIOLATION"):
+			fmt.Printf("bounded: reference search %s: no violation (%.200s)\n", o, first)
+			boundedChecks = append(boundedChecks, map[string]string{"name": o, "result": "no violation", "bound": first})
+		default:
+			fmt.Printf("NOTE: bounded reference search %s could not be run: %.200s\n", o, lastLine(detail))
+			boundedChecks = append(boundedChecks, map[string]string{"name": o, "result": "not run", "detail": lastLine(detail)})
+		}
+	}
 	wall := time.Since(t0).Seconds()
 	if evidence != "" {
 		writeEvidence(e, evidence, prop, tier, pc, results, all, failed, knownHit, undecided, stats, discharged, total, guards, guardsOK, violations, wall, timeout)
@@ -651,6 +686,7 @@ func writeEvidence(e *Engine, path, prop, tier string, pc *PropConfig, results [
 		"undischarged":                       failedIDs,
 		"undecided":                          undecided,
 		"bounded_functions":                  []string{},
+		"bounded_reference_searches":         boundedChecks,
 		"open_obligations_not_claimed":       open,
 		"explanation":                        pc.Text,
 		"not_decided":                        pc.NotDecided,
